@@ -844,10 +844,17 @@ def check_residue_support(inv, res):
                 entries[rr["key"]] = rr
         else:
             entries[k] = r
-    for k in sorted(used):
-        r = entries.get(k)
-        if r is None:
-            continue
+    todo = [entries[k] for k in sorted(used) if k in entries]
+    # width residue (bitio.rule_r_width) used in this run
+    wused = res.extra.get("width_residue_used", set())
+    if wused:
+        p = os.path.join(engine.VERIF, "oracles", "residue.json")
+        for r in json.load(open(p)).get("entries", []):
+            if r.get("id") in wused:
+                todo.append(r)
+    res.extra["residue_entries_used"] = sorted({r.get("id", "?") for r in todo})
+    for r in todo:
+        k = r.get("key")
         for need in r.get("relies_on", []):
             rx = re.compile(need)
             hits = [v for kk, v in have.items() if rx.search(kk)]
